@@ -2170,6 +2170,15 @@ class _StmtEv(_Ev):
                 raise _HelperBreak()
             if isinstance(st, ast.Continue):
                 raise _HelperContinue()
+            if isinstance(st, ast.Assert):
+                if not self.ev(st.test):
+                    raise Raised('AssertionError')
+                continue
+            if isinstance(st, ast.Raise):
+                raise Raised(norm(st.exc.func) if isinstance(st.exc, ast.Call) else norm(st.exc) if st.exc is not None else 'raise')
+            if isinstance(st, ast.Expr):
+                self.ev(st.value)
+                continue
             raise AnalysisError(f"statement outside the abstract domain in a helper of a begin/end condition: {type(st).__name__}")
 
     def _bind(self, target, val):
@@ -5518,6 +5527,75 @@ def loop_stale_uses(fn):
 
 
 
+_GROW_METHODS = ('append', 'extend', 'add', 'update', 'insert', 'appendleft', 'extendleft', 'setdefault')
+_PURE_CALLS = ('len', 'isinstance', 'print', 'str', 'repr', 'bool', 'id', 'type')
+
+
+def hoisted_accumulators(fn):
+    """(name, loop, init statement, consuming node): a container that is created before a loop, grown inside the loop and handed
+    on (as a call argument / stored element) inside the same loop without being created afresh there, and that nothing reads after
+    the loop -- what is handed on in iteration k still holds the items of the iterations before k"""
+    out = []
+    inits = [st for st in walk_no_nested(fn) if isinstance(st, ast.Assign) and _is_fresh_container(st.value)]
+    inits += [st for st in walk_no_nested(fn) if isinstance(st, ast.Assign) and isinstance(st.value, ast.Tuple) and st.value.elts
+              and all(_is_fresh_container(x) for x in st.value.elts)]
+    names = set()
+    for st in inits:
+        for t in st.targets:
+            names |= {x.id for x in ast.walk(t) if isinstance(x, ast.Name)}
+    loops = [x for x in walk_no_nested(fn) if isinstance(x, ast.For)]
+
+    def inside(node, lp):
+        return any(node is x for x in ast.walk(lp) if x is not lp) and not any(node is x for x in ast.walk(lp.iter))
+
+    for a in sorted(names):
+        stores = [x for x in walk_no_nested(fn) if isinstance(x, ast.Name) and x.id == a and isinstance(x.ctx, ast.Store)]
+        loads = [x for x in walk_no_nested(fn) if isinstance(x, ast.Name) and x.id == a and isinstance(x.ctx, ast.Load)]
+        for lp in loops:
+            if any(inside(x, lp) for x in stores) or any(x.id == a for x in ast.walk(lp.target) if isinstance(x, ast.Name)):
+                continue              # (re)assigned in the loop: per-iteration state, judged by the stale-use clause
+            init = [st for st in inits if not inside(st, lp) and st.lineno < lp.lineno and
+                    any(isinstance(x, ast.Name) and x.id == a for t in st.targets for x in ast.walk(t))]
+            if not init:
+                continue
+            grows, consumes = [], []
+            for u in loads:
+                if not inside(u, lp):
+                    continue
+                pu = parent(u)
+                if isinstance(pu, ast.Attribute) and pu.value is u and isinstance(parent(pu), ast.Call) and parent(pu).func is pu:
+                    if pu.attr in _GROW_METHODS:
+                        grows.append(u)
+                    continue
+                if isinstance(pu, ast.AugAssign) and pu.target is u:
+                    grows.append(u)
+                    continue
+                if isinstance(pu, ast.Subscript) and pu.value is u and isinstance(pu.ctx, ast.Store):
+                    grows.append(u)
+                    continue
+                # handed on: argument of a call (directly or inside a literal), element stored elsewhere, yielded
+                q, via = pu, u
+                while isinstance(q, (ast.Tuple, ast.List, ast.Dict, ast.Starred, ast.keyword)):
+                    q, via = parent(q), q
+                if isinstance(q, ast.Call) and via is not q.func and norm(q.func) not in _PURE_CALLS:
+                    consumes.append(u)
+                elif isinstance(q, (ast.Yield, ast.Return)):
+                    consumes.append(u)
+                elif isinstance(q, ast.Assign) and any(isinstance(t, (ast.Subscript, ast.Attribute)) for t in q.targets):
+                    consumes.append(u)
+            aug = [x for x in stores if inside(x, lp)]
+            if not grows or not consumes:
+                continue
+            # the innermost loop that holds both
+            if any(inside(l2, lp) and all(inside(x, l2) for x in grows + consumes) for l2 in loops if l2 is not lp):
+                continue
+            end = getattr(lp, 'end_lineno', lp.lineno)
+            if any(not inside(x, lp) and x.lineno > end for x in loads):
+                continue              # the whole-loop result is read after the loop
+            out.append((a, lp, init[-1], consumes[0]))
+    return out
+
+
 def backend_files(backend):
     gen = [G_S1, G_S2, G_S3, G_S4, G_B1, GENERIC + 'behavioral/BehavioralTranslatorL2.py', G_RTLIR_TR,
            GENERIC + 'BaseRTLIRTranslator.py']
@@ -5567,9 +5645,16 @@ def rule_loop_state(repo, backend):
                       f"`{v}` is assigned only on some paths of an iteration and read afterwards: for an item that does not take the "
                       f"assigning branch the value of the PREVIOUS item is used (e.g. the array type of a port list leaks into the next "
                       f"scalar member, which is then flattened as an array)", node.lineno)
+            hoisted = hoisted_accumulators(g)
+            for a, lp, init, use in hoisted:
+                r.bad(m, q, f"`{a}` in `for {norm(lp.target)} in {norm(lp.iter)[:50]}`: handed on in {norm(stmt_of_node(use))[:60]}",
+                      f"`{a}` is created once before this loop (line {init.lineno}), grown inside it and handed on in every iteration, "
+                      f"and nothing reads it after the loop: what iteration k hands on still contains the items of the iterations "
+                      f"before k (e.g. the second interface of a sub-component re-declares the ports of the first one) -- a "
+                      f"per-iteration accumulator must be created inside the loop", use.lineno)
             for lp in loops:
                 n += 1
-                if not any(l is lp for _, _, l in stale):
+                if not any(l is lp for _, _, l in stale) and not any(l is lp for _, l, _, _ in hoisted):
                     r.ok(m, q, f"for {norm(lp.target)} in {norm(lp.iter)[:60]}", nontrivial=False)
     r.evaluations = n
     r.require_floor(55 if backend == 'sv' else 110)
@@ -6485,6 +6570,12 @@ class _Interp(_Ev):
                     base = None
                 if isinstance(base, AObj) and e.func.attr in base.members and callable(base.members[e.func.attr]):
                     return base.members[e.func.attr](*[self.ev(a) for a in e.args])
+                if isinstance(base, str) and e.func.attr in ('startswith', 'endswith', 'join', 'replace', 'strip', 'lstrip', 'rstrip',
+                                                             'lower', 'upper', 'split'):
+                    return getattr(base, e.func.attr)(*[self.ev(a) for a in e.args])
+                if isinstance(base, list) and e.func.attr in ('append', 'extend') and len(e.args) == 1:
+                    getattr(base, e.func.attr)(self.ev(e.args[0]))
+                    return None
                 if isinstance(base, dict) and e.func.attr in ('items', 'keys', 'values', 'get'):
                     return getattr(base, e.func.attr)(*[self.ev(a) for a in e.args]) if e.func.attr == 'get' else list(getattr(base, e.func.attr)())
         if self.resolve is not None and self.depth < 4:
@@ -6610,6 +6701,42 @@ def rule_rtype_eq(repo, backend):
     else:
         r.bad(m, 'Component.__eq__', "Component == Port", "a component compares equal to an object of another RTLIR type (or the "
               "comparison is not decided)", f.lineno)
+    # admission of a list as an array: RTLIRGetter._handle_Array declares the array with the type of element 0, so it must refuse
+    # a list in which ANY element has another type (lists of 1..4 elements, the odd element at every position)
+    if 'RTLIRGetter' not in m.classes or '_handle_Array' not in m.methods('RTLIRGetter'):
+        raise AnalysisError("anchor vanished: RTLIRType.RTLIRGetter._handle_Array")
+    fa = m.methods('RTLIRGetter')['_handle_Array']
+    pa_ = [x.arg for x in fa.args.args]
+    wrong = []
+    for size in (1, 2, 3, 4):
+        for odd in [None] + list(range(size)):
+            elems = [AObj('Elem', t='Port16in' if i == odd else 'Port8in') for i in range(size)]
+            if size == 1 and odd == 0:
+                continue
+            getter = AObj('RTLIRGetter', get_rtlir=lambda x: x.members['t'] if isinstance(x, AObj) else ('Array', x))
+            it = _Interp({}, {pa_[0]: getter, pa_[1]: 'x', pa_[2]: list(elems)}, _method_resolver(m, 'RTLIRGetter'),
+                         funcs={'Array': lambda *a: ('Array',) + a, 'repr': repr})
+            n += 1
+            try:
+                it.run(fa.body)
+                verdict = 'admitted'
+            except _HelperReturn as r_:
+                verdict = 'admitted' if r_.value is not None else 'dropped'
+            except Raised as r_:
+                verdict = 'refused'
+            except (TypeError, ValueError, KeyError, IndexError) as e:
+                raise AnalysisError(f"_handle_Array outside the abstract domain: {type(e).__name__}")
+            want = 'admitted' if odd is None else 'refused'
+            if verdict != want:
+                wrong.append((size, odd, verdict))
+    cons = "_handle_Array: a list is an array iff all elements have the type of element 0 (1..4 elements, odd one at every position)"
+    if wrong:
+        size, odd, verdict = wrong[0]
+        r.bad(m, 'RTLIRGetter._handle_Array', cons, f"a list of {size} elements whose element {odd} has another type is {verdict} "
+              f"({len(wrong)} of 13 cases wrong): e.g. [InPort(8), InPort(8), InPort(16)] is declared `logic [7:0] in_ [0:2]` with the "
+              f"type of element 0" if odd is not None else f"a homogeneous list of {size} elements is {verdict}", fa.lineno)
+    else:
+        r.ok(m, 'RTLIRGetter._handle_Array', cons)
     # interface views: the ports of an interface array are declared once, from element 0
     if 'InterfaceView' not in m.classes or '__eq__' not in m.methods('InterfaceView'):
         raise AnalysisError("anchor vanished: RTLIRType.InterfaceView.__eq__")
@@ -6680,7 +6807,7 @@ def rule_rtype_eq(repo, backend):
         else:
             r.ok(m, f"{cn}.__eq__", cons)
     r.evaluations = n
-    r.require_floor(7)
+    r.require_floor(8)
     return r
 
 
@@ -6892,4 +7019,347 @@ def rule_dims_elem(repo, backend):
         raise AnalysisError("R-tr-dims-elem: no place where an array is taken apart was found")
     r.evaluations = n
     r.require_floor(1 if backend == 'sv' else 7)
+    return r
+
+
+# ---------------------------------------------------------------------------
+class _Leaf:
+    def __init__(self, args):
+        self.args = args
+
+
+_LEAF_LOG = []
+_REC_MODE = ['list', None]
+
+
+class _LeafStr(str):
+    pass
+
+
+class _RecEv(_Interp):
+    """interprets a self-recursive generator; every call of other analysed code is a leaf that records its arguments"""
+    def ev_Call(self, e):
+        try:
+            return super().ev_Call(e)
+        except AnalysisError:
+            if isinstance(e.func, (ast.Attribute, ast.Name)) and not e.keywords and norm(e.func) not in ('range', 'len'):
+                lf = _Leaf(tuple(self.ev(a) for a in e.args))
+                if self.env.get(_REC_MODE[1]) == []:      # the base case of the recursion: all dimensions peeled
+                    _LEAF_LOG.append(lf)
+                return [lf] if _REC_MODE[0] == 'list' else _LeafStr('leaf')
+            raise
+
+    def ev_Name(self, e):
+        if e.id not in self.env and e.id in ('s', 'self'):
+            return AObj('Self')
+        return super().ev_Name(e)
+
+    def ev_JoinedStr(self, e):
+        out = ''
+        for v in e.values:
+            out += str(v.value) if isinstance(v, ast.Constant) else format(self.ev(v.value), '')
+        return out
+
+
+def _self_recursive_generators(m):
+    """(qualified name, function, dims parameter, is_method): functions that loop over range(P[0]) and call themselves"""
+    out = []
+    for q, g in all_functions(m):
+        params = [a.arg for a in g.args.args]
+        if not params:
+            continue
+        for lp in [x for x in walk_no_nested(g) if isinstance(x, ast.For)]:
+            mm = re.search(r"\brange\((\w+)\[0\]\)", norm(lp.iter))
+            if not mm or mm.group(1) not in params:
+                continue
+            calls = [x for x in ast.walk(lp) if isinstance(x, ast.Call) and
+                     ((isinstance(x.func, ast.Name) and x.func.id == g.name) or
+                      (isinstance(x.func, ast.Attribute) and x.func.attr == g.name and isinstance(x.func.value, ast.Name)
+                       and x.func.value.id == params[0]))]
+            if calls:
+                out.append((q, g, mm.group(1), isinstance(calls[0].func, ast.Attribute)))
+                break
+    return out
+
+
+def recursion_cover(g, dims_p, is_method, dims):
+    """leaves reached by the generator for the dimension list `dims`: list of tuples of strings, or None if not interpretable"""
+    params = [a.arg for a in g.args.args]
+    numeric = set()
+    for x in walk_no_nested(g):
+        if isinstance(x, ast.BinOp) and isinstance(x.op, (ast.Sub, ast.FloorDiv, ast.Mult, ast.Div, ast.Mod)):
+            numeric |= {y.id for y in ast.walk(x) if isinstance(y, ast.Name)}
+        if isinstance(x, ast.AugAssign) and isinstance(x.op, (ast.Sub, ast.FloorDiv, ast.Mult)) and isinstance(x.target, ast.Name):
+            numeric.add(x.target.id)
+
+    def resolve(interp, call):
+        own = (isinstance(call.func, ast.Name) and call.func.id == g.name) or \
+              (isinstance(call.func, ast.Attribute) and call.func.attr == g.name and isinstance(call.func.value, ast.Name)
+               and call.func.value.id == params[0])
+        if not own or any(isinstance(a, ast.Starred) for a in call.args):
+            return None
+        ps = params[1:] if is_method else params
+        env = {params[0]: interp.env.get(params[0])} if is_method else {}
+        defaults = dict(zip([a.arg for a in g.args.args][len(g.args.args) - len(g.args.defaults):], g.args.defaults))
+        for p_, d_ in defaults.items():
+            env[p_] = interp.ev(d_)
+        for p_, a in zip(ps, call.args):
+            env[p_] = interp.ev(a)
+        for k in call.keywords:
+            env[k.arg] = interp.ev(k.value)
+        # free names of an enclosing function stay visible
+        for k_, v_ in interp.env.items():
+            env.setdefault(k_, v_)
+        return g, env
+    # parameters tested with isinstance( p, <mod>.K ) are objects of the first kind tested; parameters indexed by the loop
+    # variable are nested lists of the array's shape
+    kinds, indexed = {}, set()
+    loopvars = {y.id for x in walk_no_nested(g) if isinstance(x, ast.For) for y in ast.walk(x.target) if isinstance(y, ast.Name)}
+    for x in walk_no_nested(g):
+        if isinstance(x, ast.Call) and norm(x.func) == 'isinstance' and len(x.args) == 2 and isinstance(x.args[0], ast.Name):
+            try:
+                kinds.setdefault(x.args[0].id, _type_names(x.args[1])[0])
+            except AnalysisError:
+                pass
+        if isinstance(x, ast.Subscript) and isinstance(x.value, ast.Name) and isinstance(x.slice, ast.Name) and x.slice.id in loopvars:
+            indexed.add(x.value.id)
+
+    def shaped(ds, prefix):
+        if not ds:
+            return prefix
+        return [shaped(ds[1:], f"{prefix}_{i}") for i in range(ds[0])]
+    res = None
+    for mode in ('list', 'str'):
+        env = {}
+        for i, p_ in enumerate(params):
+            if i == 0 and is_method:
+                env[p_] = AObj('Self')
+            elif p_ == dims_p:
+                env[p_] = list(dims)
+            elif p_ in indexed:
+                env[p_] = shaped(list(dims), 'e')
+            elif p_ in kinds:
+                env[p_] = AObj(kinds[p_], nbits=8, get_length=lambda: 8)
+            elif p_ in numeric:
+                env[p_] = 240
+            else:
+                env[p_] = re.sub(r'\d', '', p_) or 'p'
+        defaults = dict(zip(params[len(params) - len(g.args.defaults):], g.args.defaults))
+        it = _RecEv({}, env, resolve)
+        for p_, d_ in defaults.items():
+            try:
+                it.env[p_] = it.ev(d_)
+            except AnalysisError:
+                pass
+        del _LEAF_LOG[:]
+        _REC_MODE[0], _REC_MODE[1] = mode, dims_p
+        try:
+            it.run(g.body)
+            continue
+        except _HelperReturn as r_:
+            res = r_.value
+            break
+        except (AnalysisError, Raised, TypeError, ValueError, KeyError, IndexError, AttributeError, ZeroDivisionError):
+            continue
+        finally:
+            _REC_MODE[0] = 'list'
+    if res is None:
+        return None
+    if not (isinstance(res, list) and res):
+        res = list(_LEAF_LOG)          # the leaves are folded into a string: take the calls made in the base case
+    if not res:
+        return None
+    leaves = []
+    for x in res:
+        if isinstance(x, _Leaf):
+            leaves.append(tuple(str(a) for a in x.args))
+        elif isinstance(x, dict):
+            leaves.append(tuple(str(v) for k, v in sorted(x.items())))
+        else:
+            leaves.append((str(x),))
+    return leaves
+
+
+def _cover_problem(leaves, dims):
+    a, b = dims
+    want_n = a * b
+    prod1 = {(i, j) for i in range(a) for j in range(b)}
+    prod2 = {(j, i) for i in range(a) for j in range(b)}
+    if len(leaves) != want_n:
+        return f"the recursion reaches {len(leaves)} leaves instead of {want_n}"
+    width = min(len(l) for l in leaves)
+    varying = [k for k in range(width) if len({l[k] for l in leaves}) > 1]
+    if not varying:
+        return "no argument of the leaves depends on the indices"
+    for k in varying:
+        tuples = [tuple(int(x) for x in re.findall(r"\d+", l[k])) for l in leaves]
+        # only components that are built from the indices (names / index strings); running bit counters are not judged here
+        if any(len(t) != 2 for t in tuples):
+            continue
+        st = set(tuples)
+        if len(st) != want_n or (st != prod1 and st != prod2):
+            return (f"the leaves carry the index pairs {sorted(st)[:8]}{'...' if len(st) > 8 else ''} in `{leaves[0][k]}`-like names, "
+                    f"not every (i, j) with i < {a}, j < {b} exactly once")
+    return None
+
+
+def rule_dims_recursion(repo, backend):
+    r = RuleResult('R-tr-dims-recursion', f"[{backend}] a generator that peels an array one dimension per recursion level reaches its leaf "
+                   f"exactly once for every index tuple: interpreted on the dimension lists [2,3] and [3,2] it produces 6 leaves "
+                   f"whose names / indices enumerate every (i, j) once (peeling from the wrong end, e.g. n_dim[:-1], agrees for square "
+                   f"arrays only)")
+    n = 0
+    for rel in backend_files(backend):
+        try:
+            m = repo.mod(rel)
+        except AnalysisError:
+            continue
+        for q, g, dims_p, is_method in _self_recursive_generators(m):
+            probs = []
+            judged = 0
+            for dims in ([2, 3], [3, 2]):
+                leaves = recursion_cover(g, dims_p, is_method, dims)
+                if leaves is None:
+                    continue
+                judged += 1
+                n += 1
+                p_ = _cover_problem(leaves, dims)
+                if p_:
+                    probs.append(f"dimensions {dims}: {p_}")
+            cons = f"{q}: recursion over `{dims_p}`"
+            if judged == 0:
+                r.observations.append(f"{q}: the recursion over `{dims_p}` could not be interpreted on concrete dimensions (not judged)")
+                continue
+            if probs:
+                r.bad(m, q, cons, "; ".join(probs) + " -- ports / wires / connections of a non-square array are generated for the "
+                      "wrong element set (missing elements are undeclared, extra ones do not exist in the design)", g.lineno)
+            else:
+                r.ok(m, q, cons)
+    if n == 0:
+        raise AnalysisError("R-tr-dims-recursion: no recursive array generator was interpretable")
+    r.evaluations = n
+    r.require_floor(2 if backend == 'sv' else 14)
+    return r
+
+
+# ---------------------------------------------------------------------------
+class _AnyStr(str):
+    """an unknown, empty value that may be subscripted"""
+    def __getitem__(self, k):
+        return _AnyStr('') if isinstance(k, str) else str.__getitem__(self, k)
+
+
+class _Loose(AObj):
+    """an abstract object whose unknown attributes read as an empty value and that accepts attribute stores"""
+
+
+def _loose_attr(interp_cls):
+    class L(interp_cls):
+        def ev_Attribute(self, e):
+            key = norm(e)
+            if key in self.leaves:
+                return self.leaves[key]
+            base = self.ev(e.value)
+            if isinstance(base, _Loose):
+                v = base.members.get(e.attr, _AnyStr(''))
+                if not callable(v):
+                    return v
+            return super().ev_Attribute(e)
+
+        def _bind(self, target, val):
+            if isinstance(target, ast.Attribute):
+                base = self.ev(target.value)
+                if isinstance(base, AObj):
+                    base.members[target.attr] = val
+                    return
+            return super()._bind(target, val)
+
+        def ev_Call(self, e):
+            if isinstance(e.func, ast.Attribute) and e.func.attr == 'format':
+                try:
+                    base = self.ev(e.func.value)
+                except AnalysisError:
+                    base = None
+                if isinstance(base, str):
+                    kw = {}
+                    for k in e.keywords:
+                        if k.arg is None and isinstance(k.value, ast.Call) and norm(k.value.func) == 'locals':
+                            kw.update({n_: v_ for n_, v_ in self.env.items() if isinstance(n_, str)})
+                        elif k.arg is not None:
+                            kw[k.arg] = self.ev(k.value)
+                        else:
+                            raise AnalysisError(f"format arguments outside the abstract domain: {norm(e)[:60]}")
+                    return base.format(*[self.ev(a) for a in e.args], **kw)
+            return super().ev_Call(e)
+    return L
+
+
+_SectionEv = _loose_attr(_Interp)
+
+
+def rule_component_sections(repo, backend):
+    r = RuleResult('R-tr-sections', f"[{backend}] rtlir_tr_component assembles the module text from the sections the other hooks "
+                   f"produced (declarations, temporaries, blocks, glue assigns, connections): every non-empty section appears exactly "
+                   f"once in the returned text, whatever other sections are empty (interpreted with each section empty / non-empty: "
+                   f"all, none, every single one, every pair, and the complements)")
+    lk = linker(repo)
+    top = backend_class(repo, backend)
+    res = lk.find(top, 'rtlir_tr_component')
+    if res is None:
+        raise AnalysisError("anchor vanished: rtlir_tr_component")
+    c, f = res
+    params = [a.arg for a in f.args.args]
+    if len(params) < 3:
+        raise AnalysisError(f"{fq(c, f)}: signature outside the abstract domain")
+
+    def run(nonempty, seen):
+        def get_pretty(ns, attr, *rest):
+            seen.add(attr)
+            return f"<{attr}>\n" if (nonempty is None or attr in nonempty) else ""
+        env = {params[0]: _Loose('Self', get_pretty=get_pretty)}
+        for p_ in params[1:]:
+            env[p_] = _Loose('Namespace', component_name='C', component_file_info='f.py', component_full_name='C_full',
+                             component_unique_name='C_unique')
+        it = _SectionEv({}, env)
+        try:
+            it.run(f.body)
+        except _HelperReturn as r_:
+            return r_.value
+        return None
+    secs = set()
+    try:
+        full = run(None, secs)
+    except (AnalysisError, Raised, TypeError, ValueError, KeyError, IndexError, AttributeError) as e:
+        raise AnalysisError(f"{fq(c, f)}: the assembly of the module text is outside the abstract domain ({type(e).__name__}: {str(e)[:80]})")
+    if not isinstance(full, str) or not secs:
+        raise AnalysisError(f"{fq(c, f)}: no section obtained through get_pretty reaches a returned string")
+    secs = sorted(secs)
+    scen = [frozenset(secs), frozenset()]
+    scen += [frozenset([a]) for a in secs] + [frozenset(secs) - {a} for a in secs]
+    scen += [frozenset(p_) for p_ in itertools.combinations(secs, 2)] + [frozenset(secs) - set(p_) for p_ in itertools.combinations(secs, 2)]
+    n = 0
+    lost = {}
+    for sc in dict.fromkeys(scen):
+        n += 1
+        try:
+            txt = run(sc, set())
+        except (AnalysisError, Raised, TypeError, ValueError, KeyError, IndexError, AttributeError) as e:
+            raise AnalysisError(f"{fq(c, f)}: the assembly is outside the abstract domain for the sections {sorted(sc)} ({type(e).__name__})")
+        if not isinstance(txt, str):
+            raise AnalysisError(f"{fq(c, f)}: no text is returned for the sections {sorted(sc)}")
+        for a in sorted(sc):
+            k_ = txt.count(f"<{a}>")
+            if k_ != 1:
+                lost.setdefault(a, []).append((sorted(sc), k_))
+    for a in secs:
+        cons = f"rtlir_tr_component: section `{a}`"
+        if a in lost:
+            sc, k_ = min(lost[a], key=lambda x: len(x[0]))
+            r.bad(c.mod, fq(c, f), cons, f"with the non-empty sections {sc} the text of `{a}` appears {k_} times in the module text "
+                  f"({len(lost[a])} of {n} combinations): {'the declarations / assigns of this section vanish from the emitted module (undeclared or undriven names)' if k_ == 0 else 'the section is emitted more than once (duplicate declarations / drivers)'}",
+                  f.lineno)
+        else:
+            r.ok(c.mod, fq(c, f), cons)
+    r.evaluations = n
+    r.require_floor(9 if backend == 'sv' else 13)
     return r
